@@ -19,19 +19,6 @@ def load_c10():
     return m
 
 
-def big_inode_table_image():
-    """MKIMG image whose (uncompressed) inode table is larger than 64 KiB: inode references of the late directories need more than 32 bits"""
-    many = [(b"e%04d" % i, D([], tag="e%d" % i), None) for i in range(2300)]
-    root = D([(b"f", F(b"hello", tag="f"), None), (b"many", D(many, tag="many"), None)], tag="root")
-    img, _ = mkimg.build(root)
-    im = sqfsck.load(img)
-    if im.violations:
-        raise RuntimeError("MKIMG produced an invalid image: %s" % im.violations[:2])
-    if max(n["ref"] for n in im.tree.values()) < (1 << 32):
-        raise RuntimeError("big image has no inode reference beyond 32 bits")
-    return img
-
-
 def run_kind(a):
     exe, img, opsf, kind, P, Q = a[:6]
     env = {"ASAN_OPTIONS": ASAN_ENV.replace("detect_leaks=0", "detect_leaks=1"), "LSAN_OPTIONS": "exitcode=97"}
@@ -63,7 +50,7 @@ def main():
         opsf = os.path.join(sd, "ops.txt")
         open(opsf, "w").write("\n".join(ops + mops[:3]) + "\n")
         big = os.path.join(sd, "big.sqfs")
-        bdata = big_inode_table_image()
+        bdata = c10.big_inode_table_image()
         open(big, "wb").write(bdata)
         bops, bmops, _ = c10.derive_ops(bdata)
         bopsf = os.path.join(sd, "ops_big.txt")
